@@ -170,13 +170,15 @@ void harness(void)
 		/* the packers' main() return EXIT_FAILURE without calling
 		 * sqfs_writer_cleanup when init fails: whatever init created on
 		 * disk has to be removed by init itself */
-		if (g_file_opened)
+		if (g_file_created)
 			VERIF_ASSERT(g_unlinks == 1 &&
-				     g_unlink_seq > g_file_destroy_seq,
+				     (!g_file_opened ||
+				      g_unlink_seq > g_file_destroy_seq),
 				     "C13.init.failure_removes_output");
 		else
 			VERIF_ASSERT(g_unlinks == 0,
 				     "C13.init.failure_keeps_foreign_file");
+		VERIF_ASSERT(g_native_fd_open == 0, "C13.init.releases_all");
 	} else {
 		VERIF_ASSERT(g_unlinks == 0 && g_file_open && g_fs_live &&
 			     g_file_destroyed == 0, "C13.init.success_keeps_output");
@@ -191,6 +193,7 @@ void harness(void)
 	VERIF_COVER(ret == 0 && g_fsize > C14_SUPER_SZ && !cfg.no_xattr);
 	VERIF_COVER(ret != 0 && g_disk_valid && g_ob_created[OB_DM] == 1);
 	VERIF_COVER(ret != 0 && !g_disk_valid && g_super_writes == 1);
-	VERIF_COVER(ret != 0 && g_file_opened == 0);
+	VERIF_COVER(ret != 0 && g_file_opened == 0 && !g_file_created);
+	VERIF_COVER(ret != 0 && g_file_opened == 0 && g_file_created);
 	VERIF_COVER(ret != 0 && cfg.block_size == 3 && g_file_opened == 1);
 }
